@@ -318,6 +318,70 @@ def recipe_dims(r, vp=None):
     )
 
 
+def _codelen_component(rng, w, h, depth, target_bytes):
+    """w x h samples at `depth` bits: mid-grey (coefficient 0) everywhere when target_bytes is None, else
+    coefficients (sample - 2**(depth-1)) whose signed exp-golomb code lengths sum to a bit count in
+    (8*(target_bytes-1), 8*target_bytes], so a depth-0 lossless slice component is exactly target_bytes long."""
+    mid = 1 << (depth - 1)
+    n = w * h
+    if target_bytes is None:
+        return [[mid] * w for _ in range(h)]
+    # magnitude tiers: |v| in [2**k - 1, 2**(k+1) - 2] costs 2k+1 bits plus a sign bit (k >= 1); 0 costs 1 bit
+    maxk = depth - 1  # |v| <= 2**(depth-1) - 1 always representable on both sides
+    tiers = [0] * n
+    cost = lambda k: 1 if k == 0 else 2 * k + 2
+    lo, hi = 8 * (target_bytes - 1) + 1, 8 * target_bytes
+    want = rng.randrange(lo, hi + 1)
+    total = n
+    guard = 0
+    while total != want and guard < 200000:
+        guard += 1
+        i = rng.randrange(n)
+        if total < want:
+            if tiers[i] < maxk - 1:
+                total += cost(tiers[i] + 1) - cost(tiers[i])
+                tiers[i] += 1
+        else:
+            if tiers[i] > 0:
+                total += cost(tiers[i] - 1) - cost(tiers[i])
+                tiers[i] -= 1
+        if lo <= total <= hi and guard > 4 * n:
+            break
+    vals = []
+    for k in tiers:
+        if k == 0:
+            vals.append(mid)
+        else:
+            m = rng.randrange((1 << k) - 1, (1 << (k + 1)) - 1)
+            vals.append(mid + (m if rng.random() < 0.5 else -m))
+    return [vals[y * w:(y + 1) * w] for y in range(h)]
+
+
+def codelen_recipe(rng, target_bytes):
+    """A lossless, transform-depth-0, single-slice HQ recipe whose one slice has a component of exactly target_bytes."""
+    r = random_recipe(rng, {"lossless": "yes", "depth0": True, "fragments": "no"})
+    for k in ("cw", "ch", "lo", "to"):
+        r.pop(k, None)
+    r["d"] = r["dh"] = 0
+    r["wih"] = r["wi"]
+    r["qm"] = None
+    r.pop("expect_rejection", None)
+    r["sx"] = r["sy"] = 1
+    r["fsc"] = 0
+    r["cdf"] = 0
+    r["pcm"] = 0
+    r["range"] = rng.choice([[0, 255, 128, 255], [0, 1023, 512, 1023], [0, 4095, 2048, 4095]])
+    depth = r["range"][1].bit_length()
+    # enough samples that target_bytes is reachable with codes of at most 2*depth bits each, few enough that it needs > 1 bit each
+    need = target_bytes * 8
+    side = [(8, 8), (16, 8), (16, 16), (32, 16), (32, 32), (64, 32)]
+    fits = [(w, h) for w, h in side if w * h * 2 <= need <= w * h * (2 * depth - 4)]
+    r["w"], r["h"] = rng.choice(fits or [(32, 32)])
+    r["pics"] = {"n": rng.choice([1, 2]), "class": "codelen", "seed": rng.randrange(1 << 30), "nums": None,
+                 "L": target_bytes, "tc": rng.choice(["Y", "Y", "C1", "C2"])}
+    return r
+
+
 def build_pictures(r, vp=None):
     dd = recipe_dims(r, vp)
     spec = r["pics"]
@@ -330,6 +394,10 @@ def build_pictures(r, vp=None):
         p = {}
         for c, (w, h, depth) in dd.items():
             mx = (1 << depth) - 1
+            if cls == "codelen":
+                # samples whose signed exp-golomb codes (transform depth 0, lossless) total a chosen number of bytes
+                p[c] = _codelen_component(rng, w, h, depth, spec["L"] if c == spec["tc"] else None)
+                continue
             if cls == "zero":
                 p[c] = [[0] * w for _ in range(h)]
             elif cls == "max":
